@@ -334,3 +334,43 @@ Definition spec (i o : sx) : bool :=
   sx_eqb o (SL [enc_tr tr; of_bool alive]) &&
   (if mode_of i then wrun [] (bops ops) tr && negb alive
    else if reliable outs then strong_ok c ops tr alive else wrun [] ops tr).
+
+(* ------------------------------------------------------------------ *)
+(* vocabulary of the theorems in Props/C12.v (specification side; nothing here mentions
+   bufio or the implementation's state beyond the observable events) *)
+(* what the sink holds, one entry per sink write *)
+Definition recv1 (e : ev) : list bytes := match e with EW p n => [firstn n p] | ES => [] end.
+Definition received (es : list ev) : list bytes := concat (map recv1 es).
+(* the writes handed to Write, in order *)
+Definition acc1 (o : op) : list bytes := match o with Write bs => [bs] | _ => [] end.
+Definition accepted (ops : list op) : list bytes := concat (map acc1 ops).
+(* the accepted writes split into groups already in the sink (one sink write per group) and
+   the writes still buffered *)
+Definition Grp (acc sw : list bytes) (b : bytes) : Prop :=
+  exists groups rest, acc = concat groups ++ rest /\ sw = map (@concat byte) groups /\ b = concat rest.
+Definition all_evs (tr : list (res * list ev)) : list ev := concat (map snd tr).
+(* was the sink written after its last Sync? *)
+Fixpoint dirty_of (d : bool) (es : list ev) : bool :=
+  match es with [] => d | EW _ _ :: r => dirty_of true r | ES :: r => dirty_of false r end.
+(* operations after which everything accepted must be in the sink and synced *)
+Definition flushing (o : op) (alive : bool) : bool :=
+  match o with Sync | Stop => true | Tick => alive | Write _ => false end.
+(* over a reliable sink nothing fails *)
+Definition res_ok (o : op) (r : res) : Prop :=
+  match o, r with
+  | Write bs, RW n e => n = length bs /\ e = 0
+  | Sync, RS e => e = 0
+  | Tick, RT _ => True
+  | Stop, RStop e => e = 0
+  | _, _ => False
+  end.
+(* lifecycle by the documentation: the flush loop runs from the first Write to the first Stop after it *)
+Definition phase_step (p : phase) (o : op) : phase :=
+  match o, p with Write _, Fresh => Running | Stop, Running => Stopped | _, _ => p end.
+Definition spec_phase (ops : list op) : phase := fold_left phase_step ops Fresh.
+(* the bytes the Writes reported as consumed (n of every (n, err)) *)
+Definition consumed1 (x : op * (res * list ev)) : bytes :=
+  match x with (Write bs, (RW n _, _)) => firstn n bs | _ => [] end.
+Definition consumed (ops : list op) (tr : list (res * list ev)) : bytes := concat (map consumed1 (combine ops tr)).
+(* Stop has nothing left to do *)
+Definition stop_done (s : st) : Prop := inited s = false \/ stopped s = true.
